@@ -1754,6 +1754,372 @@ func clsStorm(c *checkCtx, round int, streams int) (res clsStormResult) {
 	return
 }
 
+// ---------------------------------------------------------------------------------------------
+// close-at-callback-exit storm: a user goroutine's Close() lands in the few nanoseconds in which the callback goroutine
+// leaves OnData and hands the stream back (store callbackInProcess=0, look at callbackCloseState). Whatever the
+// interleaving, somebody must finish the close: either Close() itself or the ending callback goroutine.
+// Per iteration: a fresh callback stream on the server, one message; OnData consumes it, raises a flag and burns a swept
+// number of loop turns before it returns; a second goroutine spins on the flag, burns its own swept delay and calls Close().
+// Verdict per batch, as bounded progress: pair quiescent + fences (+ a generous watchdog): every stream is closed, out of
+// the session's table, got exactly one OnLocalClose (no OnRemoteClose), and the peer observes end-of-stream.
+
+type clsExitStream struct {
+	id       uint32
+	cl, sv   *Stream
+	flag     int32 // raised by OnData right before it returns
+	burn     int
+	nData    int32
+	nLocal   int32
+	nRemote  int32
+	deferred bool // Close returned with the close still pending (evidence)
+}
+
+var clsBurnSink uint64
+
+func clsBurn(n int) {
+	x := uint64(n)
+	for i := 0; i < n; i++ {
+		x = x*2862933555777941757 + 3037000493
+	}
+	if x == 42 {
+		atomic.AddUint64(&clsBurnSink, 1)
+	}
+}
+
+func (e *clsExitStream) OnData(r BufferReader) {
+	defer func() { _ = recover() }()
+	atomic.AddInt32(&e.nData, 1)
+	if n := r.Len(); n > 0 {
+		_, _ = r.ReadBytes(n)
+		r.ReleasePreviousRead()
+	}
+	atomic.StoreInt32(&e.flag, 1)
+	clsBurn(e.burn)
+}
+func (e *clsExitStream) OnLocalClose()  { atomic.AddInt32(&e.nLocal, 1) }
+func (e *clsExitStream) OnRemoteClose() { atomic.AddInt32(&e.nRemote, 1) }
+
+type clsExitRegistry struct {
+	mu   sync.Mutex
+	byID map[uint32]*clsExitStream
+}
+
+func (r *clsExitRegistry) OnNewStream(s *Stream) {
+	r.mu.Lock()
+	e := r.byID[s.id]
+	r.mu.Unlock()
+	if e != nil && e.sv == nil {
+		e.sv = s
+		_ = s.SetCallbacks(e)
+	}
+}
+func (r *clsExitRegistry) OnShutdown(string) {}
+
+type clsExitResult struct {
+	iters, deferred, direct int64
+	viol                    []string
+	witness                 []map[string]interface{}
+	inc                     string
+}
+
+func clsExitStorm(c *checkCtx, round, batches, perBatch int) (res clsExitResult) {
+	rng := caseRand(c.seed, 950000+round)
+	reg := &clsExitRegistry{byID: map[uint32]*clsExitStream{}}
+	p, err := newSessionPair(pairOpt{noAccept: true, initTO: 20 * time.Second, memfd: round%2 == 0,
+		serverCfg: func(cfg *Config) { cfg.listenCallback = reg }})
+	if err != nil {
+		res.inc = "pair: " + err.Error()
+		return
+	}
+	var all []*clsExitStream
+	defer func() {
+		for _, e := range all {
+			e.cl.Close()
+			if e.sv != nil {
+				e.sv.Close()
+			}
+		}
+		p.close()
+	}()
+	wd := 15 * time.Second
+	center := 64
+	for b := 0; b < batches; b++ {
+		var batch []*clsExitStream
+		for i := 0; i < perBatch; i++ {
+			st, err := p.client.OpenStream()
+			if err != nil {
+				res.inc = "open: " + err.Error()
+				return
+			}
+			// both delays are swept over the range in which "OnData returns" and "Close loads callbackInProcess" cross
+			// OnData's burn is servoed to the point where "OnData returns" and "Close loads callbackInProcess" cross (a Close that
+			// found the callback in process came early: burn less; one that found none came late: burn more) and dithered
+			// around it; the closer adds a small swept delay of its own. Timing calibration only - the verdict does not depend on it.
+			burn := center + rng.Intn(65) - 32
+			if burn < 0 {
+				burn = 0
+			}
+			e := &clsExitStream{id: st.id, cl: st, burn: burn}
+			delay := rng.Intn(24)
+			reg.mu.Lock()
+			reg.byID[st.id] = e
+			reg.mu.Unlock()
+			batch = append(batch, e)
+			all = append(all, e)
+			done := make(chan struct{})
+			go func() {
+				defer close(done)
+				for j := 0; atomic.LoadInt32(&e.flag) == 0; j++ {
+					if j > 200_000_000 {
+						return
+					}
+				}
+				clsBurn(delay)
+				e.deferred = atomic.LoadUint32(&e.sv.callbackInProcess) == 1 // sampled a moment before Close does (evidence of the crossing, no verdict)
+				_ = e.sv.Close()
+			}()
+			st.BufferWriter().WriteBytes([]byte{byte(i), 1, 2, 3})
+			if err := st.Flush(false); err != nil {
+				res.inc = "flush: " + err.Error()
+				atomic.StoreInt32(&e.flag, 1)
+				<-done
+				return
+			}
+			select {
+			case <-done:
+			case <-time.After(wd):
+				res.inc = "OnData was not invoked / closer did not return"
+				return
+			}
+			res.iters++
+			if e.deferred {
+				res.deferred++
+				if center > 0 {
+					center -= 2
+				}
+			} else {
+				res.direct++
+				if center < 4000 {
+					center += 2
+				}
+			}
+		}
+		// ---- bounded progress: everything sent has been handled; the closes must be complete
+		ok := func(e *clsExitStream) bool {
+			return e.sv != nil && e.sv.getStreamState() == uint32(streamClosed) && p.server.getStreamById(e.id) != e.sv &&
+				atomic.LoadInt32(&e.nLocal) == 1 && e.cl.getStreamState() != uint32(streamOpened)
+		}
+		allOK := func() bool {
+			for _, e := range batch {
+				if !ok(e) {
+					return false
+				}
+			}
+			return true
+		}
+		if !p.quiesce(wd) || !fenceN(2) {
+			res.inc = "pair did not settle"
+			return
+		}
+		if !allOK() {
+			// the ending callback goroutine may still be on its way through close(): generous watchdog, then look again
+			waitUntil(wd/3, allOK)
+			if !p.quiesce(wd) || !fenceN(3) {
+				res.inc = "pair did not settle"
+				return
+			}
+		}
+		for _, e := range batch {
+			l, r := atomic.LoadInt32(&e.nLocal), atomic.LoadInt32(&e.nRemote)
+			switch {
+			case ok(e) && r == 0:
+			case ok(e):
+				res.viol = append(res.viol, fmt.Sprintf("close-at-callback-exit: stream %d: OnRemoteClose fired %d time(s) although only the local end closed (OnLocalClose %d)", e.id, r, l))
+			default:
+				inTable := e.sv != nil && p.server.getStreamById(e.id) == e.sv
+				res.viol = append(res.viol, fmt.Sprintf("close-at-callback-exit: stream %d: Close() was called right when OnData returned and returned nil; with the pair quiescent (fences passed, %v waited) the stream is in state %s, %s the session's table (active streams %d), OnLocalClose %d, OnRemoteClose %d, peer's stream state %s, callbackInProcess %d, OnData calls %d",
+					e.id, wd/3, clsStateName(e.sv.getStreamState()), map[bool]string{true: "still in", false: "not in"}[inTable], p.server.GetActiveStreamCount(), l, r,
+					clsStateName(e.cl.getStreamState()), atomic.LoadUint32(&e.sv.callbackInProcess), atomic.LoadInt32(&e.nData)))
+			}
+			if len(res.viol) > 0 {
+				res.witness = append(res.witness, map[string]interface{}{"stream": e.id, "ondata_burn": e.burn, "close_deferred": e.deferred})
+				return
+			}
+		}
+		for _, e := range batch {
+			e.cl.Close()
+		}
+		reg.mu.Lock()
+		for _, e := range batch {
+			delete(reg.byID, e.id)
+		}
+		reg.mu.Unlock()
+		all = all[:0]
+	}
+	return
+}
+
+// ---------------------------------------------------------------------------------------------
+// OnData blocked in a read for more than has arrived; then the PEER closes: the blocked read must end with a closed-stream
+// error (bounded progress), OnData returns, exactly one close callback (OnRemoteClose), and a later local Close completes.
+
+type clsBlkCase struct {
+	Idx    int    `json:"idx"`
+	End    string `json:"callback_end"` // server | client
+	API    string `json:"read_api"`     // ReadBytes | Peek | Discard
+	Timing string `json:"peer_close"`   // after-blocked | at-once
+	Sent   int    `json:"bytes_sent"`
+	Asked  int    `json:"bytes_asked"`
+}
+
+type clsBlkEnd struct {
+	cs       clsBlkCase
+	st       *Stream
+	inside   int32
+	returned int32
+	readErr  atomic.Value // clsErrBox
+	nData    int32
+	nLocal   int32
+	nRemote  int32
+	once     int32
+}
+
+type clsErrBox struct{ e error }
+
+func (b *clsBlkEnd) OnData(r BufferReader) {
+	defer func() {
+		if rec := recover(); rec != nil {
+			b.readErr.Store(clsErrBox{fmt.Errorf("panic: %v", rec)})
+			atomic.StoreInt32(&b.returned, 1)
+		}
+	}()
+	atomic.AddInt32(&b.nData, 1)
+	if !atomic.CompareAndSwapInt32(&b.once, 0, 1) {
+		if n := r.Len(); n > 0 {
+			_, _ = r.ReadBytes(n)
+			r.ReleasePreviousRead()
+		}
+		return
+	}
+	atomic.StoreInt32(&b.inside, 1)
+	var err error
+	switch b.cs.API {
+	case "ReadBytes":
+		_, err = r.ReadBytes(b.cs.Asked)
+	case "Peek":
+		_, err = r.Peek(b.cs.Asked)
+	default:
+		_, err = r.Discard(b.cs.Asked)
+	}
+	b.readErr.Store(clsErrBox{err})
+	if n := r.Len(); n > 0 { // keep the callback loop moving
+		_, _ = r.ReadBytes(n)
+	}
+	r.ReleasePreviousRead()
+	atomic.StoreInt32(&b.returned, 1)
+}
+func (b *clsBlkEnd) OnLocalClose()  { atomic.AddInt32(&b.nLocal, 1) }
+func (b *clsBlkEnd) OnRemoteClose() { atomic.AddInt32(&b.nRemote, 1) }
+
+func clsBlockedReadCase(c *checkCtx, cs clsBlkCase) (viol []string, inc string) {
+	reg := newClsRegistry()
+	p, err := newSessionPair(pairOpt{noAccept: true, initTO: 20 * time.Second, memfd: cs.Idx%2 == 0,
+		serverCfg: func(cfg *Config) { cfg.listenCallback = reg }})
+	if err != nil {
+		return nil, "pair: " + err.Error()
+	}
+	b := &clsBlkEnd{cs: cs}
+	var waiting int32
+	k := newCtl("C10/blocked-read", int64(cs.Idx))
+	k.on(vpReadMoreBeforeWait, func(obj interface{}, n int64) {
+		if st, _ := obj.(*Stream); st != nil && st == b.st && atomic.LoadInt32(&b.inside) == 1 {
+			atomic.StoreInt32(&waiting, 1)
+		}
+	})
+	k.install()
+	var cst, sst *Stream
+	defer func() {
+		if cst != nil {
+			cst.Close()
+		}
+		for _, st := range reg.snapshot() {
+			st.Close()
+		}
+		uninstallCtl()
+		p.close()
+	}()
+	wd := 15 * time.Second
+	cst, err = p.client.OpenStream()
+	if err != nil {
+		return nil, "open: " + err.Error()
+	}
+	write := func(st *Stream, n int) error {
+		st.BufferWriter().WriteBytes(make([]byte, n))
+		return st.Flush(false)
+	}
+	var peer *Stream
+	if cs.End == "server" {
+		reg.mu.Lock()
+		reg.onNew[cst.id] = func(s *Stream) { b.st = s; _ = s.SetCallbacks(b) }
+		reg.mu.Unlock()
+		peer = cst
+		if err := write(cst, cs.Sent); err != nil {
+			return nil, "flush: " + err.Error()
+		}
+		if sst = reg.wait(cst.id, wd); sst == nil {
+			return nil, "server stream did not appear"
+		}
+	} else {
+		b.st = cst
+		if err := cst.SetCallbacks(b); err != nil {
+			return nil, "SetCallbacks: " + err.Error()
+		}
+		if err := write(cst, 1); err != nil { // the server learns of the stream
+			return nil, "flush: " + err.Error()
+		}
+		if sst = reg.wait(cst.id, wd); sst == nil {
+			return nil, "server stream did not appear"
+		}
+		peer = sst
+		if err := write(sst, cs.Sent); err != nil {
+			return nil, "flush: " + err.Error()
+		}
+	}
+	if cs.Timing == "after-blocked" {
+		// the read is known to be waiting: everything sent has arrived and the reader is past its last look at the buffer
+		if !waitUntil(wd, func() bool { return atomic.LoadInt32(&waiting) == 1 }) || !p.quiesce(wd) {
+			return nil, "OnData did not reach the blocking read"
+		}
+	}
+	_ = peer.Close() // the peer closes mid-message
+	x := &clsExec{c: c, watchdog: wd, p: p, ends: map[string]*clsEnd{}}
+	name := fmt.Sprintf("blocked-read: %s end, %s(%d) with %d bytes sent, peer closes %s", cs.End, cs.API, cs.Asked, cs.Sent, cs.Timing)
+	if !x.eventually(name+": the read blocked inside OnData returns after the peer closed (OnData returned)", func() bool { return atomic.LoadInt32(&b.returned) == 1 }) {
+		return x.viol, x.inc
+	}
+	if box, _ := b.readErr.Load().(clsErrBox); box.e == nil || !isClosedStreamErr(box.e) {
+		x.violate("%s: the read for more bytes than the peer sent before closing returned %v, not a closed-stream error", name, box.e)
+		return x.viol, x.inc
+	}
+	if !x.eventually(name+": OnRemoteClose fires", func() bool { return atomic.LoadInt32(&b.nRemote) >= 1 }) {
+		return x.viol, x.inc
+	}
+	// a later local Close completes and the stream leaves the table
+	_ = b.st.Close()
+	if !x.eventually(name+": a later local Close completes (state closed, stream removed from the session's table)", func() bool {
+		return b.st.getStreamState() == uint32(streamClosed) && b.st.session.getStreamById(b.st.id) != b.st
+	}) {
+		return x.viol, x.inc
+	}
+	if !p.quiesce(wd) || !fenceN(2) {
+		return x.viol, "pair did not settle at the end"
+	}
+	if l, r := atomic.LoadInt32(&b.nLocal), atomic.LoadInt32(&b.nRemote); l+r != 1 {
+		x.violate("%s: close callbacks fired %d times (OnLocalClose %d, OnRemoteClose %d)", name, l+r, l, r)
+	}
+	return x.viol, x.inc
+}
+
 func checkClose(c *checkCtx) {
 	table := clsScenarioTable()
 	timings := c.pick(3, 150)
@@ -1838,6 +2204,49 @@ func checkClose(c *checkCtx) {
 		if len(res.viol) > 0 {
 			c.violation(name, map[string]interface{}{"round": r, "violations": res.viol}, "%s", res.viol[0])
 			break
+		}
+	}
+	// ---- close-at-callback-exit storm
+	for r, rounds := 0, c.pick(6, 300); r < rounds && !stop; r++ {
+		res := clsExitStorm(c, r, 16, 256)
+		name := fmt.Sprintf("exit-storm#%d", r)
+		c.count("exit storm: Close calls racing with the return of OnData", res.iters)
+		c.count("exit storm: Close found the callback still in process (deferred)", res.deferred)
+		c.count("exit storm: Close found no callback in process (direct)", res.direct)
+		if res.inc != "" && len(res.viol) == 0 {
+			c.inconclusiveCase(name, res.inc)
+			continue
+		}
+		c.eval(1)
+		if res.deferred > 0 && res.direct > 0 {
+			c.nontrivial(fmt.Sprintf("exit-storm/%d/%d", r, res.deferred*16/(res.iters+1)))
+		}
+		if len(res.viol) > 0 {
+			c.violation(name, map[string]interface{}{"round": r, "violations": res.viol, "streams": res.witness, "iterations_before": res.iters}, "%s", res.viol[0])
+			stop = true
+		}
+	}
+	// ---- OnData blocked in a read, then the peer closes
+	for i, reps := 0, c.pick(2, 40); i < reps*12 && !stop; i++ {
+		rng := caseRand(c.seed, 970000+i)
+		cs := clsBlkCase{Idx: i, End: []string{"server", "client"}[i%2], API: []string{"ReadBytes", "Peek", "Discard"}[(i/2)%3],
+			Timing: []string{"after-blocked", "at-once"}[(i/6)%2], Sent: 1 + rng.Intn(3000)}
+		cs.Asked = cs.Sent + 1 + rng.Intn(2000)
+		viol, inc := clsBlockedReadCase(c, cs)
+		name := fmt.Sprintf("blocked-read#%d", i)
+		if inc != "" && len(viol) == 0 {
+			c.inconclusiveCase(name, inc)
+			continue
+		}
+		c.eval(1)
+		c.count("blocked-read cases (OnData waiting for more than was sent, then the peer closes)", 1)
+		c.nontrivial(fmt.Sprintf("blocked-read/%s/%s/%s", cs.End, cs.API, cs.Timing))
+		if len(viol) > 0 {
+			atomic.AddInt32(&clsViolationsSoFar, 1)
+			c.violation(name, map[string]interface{}{"case": cs, "violations": viol}, "%s", viol[0])
+			if atomic.LoadInt32(&clsViolationsSoFar) >= 4 {
+				stop = true
+			}
 		}
 	}
 	for _, pt := range points {
